@@ -1,5 +1,35 @@
 /-
-  C16 — the clip step (`Model/Clip.lean`, `clip.rs`), tied by the `clip` streams of tools/props/c16.py.
+  C16 — the clip step (`Model/Clip.lean`; `clip_left`, `clip_right`, `mark_faces`, `delete_darts` of
+  `honeycomb-kernels/src/grisubal/routines/clip.rs`), tied to the real functions through the hook
+  `grisubal::verif::{clip_left, clip_right, Boundary}` by the `clip` streams of tools/props/c16.py.
+
+  On every well-formed 2-map carrying the `Boundary` storage, for every size and every tagging:
+
+  * `C16_markFaces_spec`      `mark_faces = Ok(set)`: the map is untouched and the set is — each face once —
+                              exactly the closure `Clos`: the faces reachable from a non-free dart tagged `mark`
+                              by crossing only sides whose opposite dart carries no tag (`Boundary::None` / absent);
+                              no face of it has a dart tagged `other`.  The BFS order does not matter: the result
+                              is characterised as a set.
+  * `C16_markFaces_err`       `Err(InconsistentOrientation)` only if a closure face has a dart tagged `other`
+  * `C16_deleteDarts_spec`    for EVERY iteration order of the `HashSet` of marked faces: their darts are unlinked
+                              (β0 = β1 = β2 = 0) and flagged removed; every other dart keeps flag, β0, β1, and β2
+                              unless it is tagged `kept` (then it becomes 2-free); tags untouched
+  * `C16_deleteDarts_order_independent`, `C16_clip_order_independent`
+                              two iteration orders give the same β functions and removal flags
+  * `C16_clip_spec`, `C16_clipLeft_spec`, `C16_clipRight_spec`
+                              the two steps together: exactly the darts of the closure faces are removed …
+  * `C16_clip_WF`             … and if tags are `None`/`mark`/`other` only and every 2-linked dart tagged `other`
+                              faces a dart tagged `mark` (what `mark_boundary` writes), the result is a well-formed
+                              2-map in which every remaining dart tagged `other` is 2-free
+
+  * `C16_markFaces_total`     the marking loop ends within the fuel the model gives it (`2·n_darts + 2`: measure
+                              `queue length + number of darts of unmarked faces`), never panics, never writes;
+    `C16_markFaces_err_iff`   hence the error is raised EXACTLY when a closure face carries the other tag
+
+  NOT proved: totality of `delete_darts` (it panics when a kept boundary dart has no vertex coordinates — modelled,
+  tied, and the `Ok` case is what the theorems describe); the coordinates / vertex anchors after the clip (which
+  stale vertex slots keep a value depends on the `HashSet` order — the tie compares coordinates at live vertex ids
+  only).
 -/
 import Honeycomb.Model.Clip
 import Honeycomb.Props.C17
@@ -316,10 +346,6 @@ theorem deleteFaces_eff {m0 : Map Val} (h0 : WF 3 m0) : ∀ (fs done : List Nat)
       have hrun : run (orbit2 (X := Val) m0.n .face f) m = (.ok (orb m0 .face f), m) := by
         have := run_orbit2_rok hd.rok (pol := .face) (Or.inr rfl) f0 (by rw [hd.n]; exact flt)
         rw [hd.n, horb] at this; exact this
-      conv => lhs; unfold deleteFaces
-      simp only [Prog.bind_eq]
-      rw [run_bind, hrun]
-      simp only
       have hds : ∀ d, d ∈ orb m0 .face f → d ≠ 0 ∧ d < m.n ∧ m.unused d = false := by
         intro d hd'
         obtain ⟨d0, dlt, _⟩ := face_of_mem h0 ⟨f0, flt, fid⟩ hd'
@@ -328,8 +354,13 @@ theorem deleteFaces_eff {m0 : Map Val} (h0 : WF 3 m0) : ∀ (fs done : List Nat)
         exact C03_orbit_of_in_use_is_in_use h0 (pol := .face) trivial f0 flt hfu d hd'
       obtain ⟨m1, hr1, d1⟩ := deleteDartsOf_eff (orb m0 .face f) m hd.rok hds sp.2.2.1
       rw [hd.n] at hr1
-      rw [run_bind, hr1]
-      simp only
+      have hstep : run (deleteFaces m0.n (f :: fs)) m = run (deleteFaces m0.n fs) m1 := by
+        conv => lhs; unfold deleteFaces
+        simp only [Prog.bind_eq]
+        rw [run_bind, hrun]
+        simp only
+        rw [run_bind, hr1]
+      rw [hstep]
       have hd1 : Del (InFaces m0 (done ++ [f])) m0 m1 := (hd.trans d1).congr (by
         intro x
         unfold InFaces
@@ -355,5 +386,1010 @@ theorem deleteFaces_eff {m0 : Map Val} (h0 : WF 3 m0) : ∀ (fs done : List Nat)
           · exact hfn (by rw [← List.mem_singleton.1 hh]; exact hf'))
         hnd'
       exact ⟨m', hr, by simpa [List.append_assoc] using dd⟩
+
+/-! ## the saved boundary darts and the last loop -/
+
+theorem readOnly_isFree2 (d : Nat) : ReadOnly (isFree2 d) := by
+  unfold isFree2
+  refine ReadOnly.bind (ReadOnly.rB _ _) fun b0 => ReadOnly.ite (ReadOnly.pure _) ?_
+  refine ReadOnly.bind (ReadOnly.rB _ _) fun b1 => ReadOnly.ite (ReadOnly.pure _) ?_
+  exact ReadOnly.bind (ReadOnly.rB _ _) fun b2 => ReadOnly.pure _
+
+theorem readOnly_savedAnchor (n d : Nat) (ha : Bool) : ReadOnly (savedAnchor n d ha) := by
+  unfold savedAnchor
+  cases ha
+  · exact ReadOnly.pure _
+  · exact ReadOnly.bind (readOnly_vertexId2 _ _) fun _ => ReadOnly.rA _ _
+
+theorem readOnly_savedBoundary (n : Nat) (kept : Val) (ha : Bool) : ∀ ds, ReadOnly (savedBoundary n kept ha ds) := by
+  intro ds
+  induction ds with
+  | nil => exact ReadOnly.pure _
+  | cons d ds ih =>
+      unfold savedBoundary
+      refine ReadOnly.bind (ReadOnly.rA _ _) fun a => ReadOnly.ite ?_ ih
+      refine ReadOnly.bind (readOnly_vertexId2 _ _) fun vid => ReadOnly.bind (ReadOnly.rA _ _) fun v => ?_
+      cases v with
+      | none => exact ReadOnly.panic
+      | some v =>
+          exact ReadOnly.bind (readOnly_savedAnchor n d ha) fun anc => ReadOnly.bind ih fun rest => ReadOnly.pure _
+
+/-- the saved list names exactly the scanned darts tagged `kept`, in order -/
+theorem savedBoundary_darts (n : Nat) (kept : Val) (ha : Bool) (m : Map Val) : ∀ ds saved m',
+    run (savedBoundary n kept ha ds) m = (.ok saved, m') →
+    saved.map (·.1) = ds.filter (fun d => decide (m.att sBd d = some kept)) := by
+  intro ds
+  induction ds with
+  | nil => intro saved m' hr; simp [savedBoundary, run] at hr; rw [hr.1]; rfl
+  | cons d ds ih =>
+      intro saved m' hr
+      unfold savedBoundary at hr
+      simp only [Prog.bind_eq] at hr
+      obtain ⟨a, m1, h1, hr1⟩ := run_bind_ok hr
+      have e1 : m1 = m := (ReadOnly.rA sBd d).run_ok h1
+      rw [e1] at hr1
+      have ea : a = m.att sBd d := by
+        simp only [run_rA'] at h1
+        split at h1
+        · injection h1 with h1 _; injection h1 with h1; exact h1.symm
+        · cases h1
+      by_cases hk : a = some kept
+      · rw [if_pos hk] at hr1
+        obtain ⟨vid, m2, h2, hr2⟩ := run_bind_ok hr1
+        have e2 : m2 = m := (readOnly_vertexId2 n d).run_ok h2
+        rw [e2] at hr2
+        obtain ⟨v, m3, h3, hr3⟩ := run_bind_ok hr2
+        have e3 : m3 = m := (ReadOnly.rA 0 vid).run_ok h3
+        rw [e3] at hr3
+        cases v with
+        | none => simp at hr3
+        | some v =>
+            simp only at hr3
+            obtain ⟨anc, m4, h4, hr4⟩ := run_bind_ok hr3
+            have e4 : m4 = m := (readOnly_savedAnchor n d ha).run_ok h4
+            rw [e4] at hr4
+            obtain ⟨rest, m5, h5, hr5⟩ := run_bind_ok hr4
+            simp only [Prog.pure_eq, run_ret, Prod.mk.injEq, Out.ok.injEq] at hr5
+            rw [← hr5.1]
+            simp only [List.map_cons, List.filter_cons]
+            rw [← ea, hk]
+            simp only [decide_true, if_true]
+            rw [ih rest m5 h5]
+      · rw [if_neg hk] at hr1
+        rw [ih saved m' hr1]
+        simp only [List.filter_cons]
+        rw [← ea]
+        simp [hk]
+
+/-- `m'` is `m` with the darts of `K` made 2-free -/
+structure Freed (K : Nat → Prop) (m m' : Map Val) : Prop where
+  n : m'.n = m.n
+  rok : ROK m'
+  u : ∀ x, m'.unused x = m.unused x
+  inK : ∀ x, K x → m'.β 2 x = 0
+  other : ∀ i x, ¬ (i = 2 ∧ K x) → m'.β i x = m.β i x
+  tags : ∀ x, m'.att sBd x = m.att sBd x
+
+/-- last loop of `delete_darts`: total, and only β2 of the saved darts changes (besides coordinates and
+    vertex anchors) -/
+theorem restoreBoundary_eff : ∀ (L : List (Nat × Val × Option Val)) (m : Map Val), ROK m →
+    (∀ e, e ∈ L → e.1 ≠ 0 ∧ e.1 < m.n) →
+    ∃ m', run (restoreBoundary m.n L) m = (.ok (), m') ∧ Freed (fun x => x ∈ L.map (·.1)) m m' := by
+  intro L
+  induction L with
+  | nil =>
+      intro m h _
+      exact ⟨m, rfl, ⟨rfl, h, fun _ => rfl, fun x hx => by simp at hx, fun _ _ _ => rfl, fun _ => rfl⟩⟩
+  | cons e L ih =>
+      intro m h hL
+      obtain ⟨d, v, anc⟩ := e
+      obtain ⟨hd0, hd⟩ := hL (d, v, anc) List.mem_cons_self
+      have h1 : ROK (m.setβ 2 d 0) := h.setβ0 (by omega) hd
+      have hd1 : d < (m.setβ 2 d 0).n := hd
+      obtain ⟨rv, hvlt⟩ := run_vid_rok h1 hd0 hd1
+      have ok0 : (m.setβ 2 d 0).okA 0 (cellId (m.setβ 2 d 0) .vertex d) = true := h1.okA (by omega) hvlt
+      have h2 : ROK ((m.setβ 2 d 0).setA 0 (cellId (m.setβ 2 d 0) .vertex d) (some v)) := h1.setA _ _ _
+      -- the state before the recursive call
+      have key : ∃ m2, ROK m2 ∧ m2.n = m.n ∧ (∀ x, m2.unused x = m.unused x) ∧
+          (∀ i x, m2.β i x = (m.setβ 2 d 0).β i x) ∧ (∀ x, m2.att sBd x = m.att sBd x) ∧
+          run (restoreBoundary m.n ((d, v, anc) :: L)) m = run (restoreBoundary m.n L) m2 := by
+        cases anc with
+        | none =>
+            refine ⟨_, h2, rfl, fun _ => rfl, fun _ _ => rfl, ?_, ?_⟩
+            · intro x
+              show ((m.setβ 2 d 0).setA 0 _ (some v)).att sBd x = _
+              rw [Map.att_setA, if_neg (fun hh => absurd hh.1 (by decide))]; rfl
+            · conv => lhs; unfold restoreBoundary
+              simp only [Prog.bind_eq, run_wB, h.okb (by omega : 2 < 3) hd, if_true]
+              have hn1 : (m.setβ 2 d 0).n = m.n := rfl
+              rw [← hn1, run_bind, rv]
+              simp only [run_rA, ok0, if_true, run_wA, Prog.pure_eq]
+              rw [run_bind]
+              simp only [run_ret]
+        | some a =>
+            have oka : ((m.setβ 2 d 0).setA 0 (cellId (m.setβ 2 d 0) .vertex d) (some v)).okA sVA
+                (cellId (m.setβ 2 d 0) .vertex d) = true := h2.okA (by decide) hvlt
+            refine ⟨_, h2.setA sVA (cellId (m.setβ 2 d 0) .vertex d) (some a), rfl, fun _ => rfl, fun _ _ => rfl,
+              ?_, ?_⟩
+            · intro x
+              rw [Map.att_setA, if_neg (fun hh => absurd hh.1 (by decide)), Map.att_setA,
+                if_neg (fun hh => absurd hh.1 (by decide))]
+              rfl
+            · conv => lhs; unfold restoreBoundary
+              simp only [Prog.bind_eq, run_wB, h.okb (by omega : 2 < 3) hd, if_true]
+              have hn1 : (m.setβ 2 d 0).n = m.n := rfl
+              rw [← hn1, run_bind, rv]
+              simp only [run_rA, ok0, if_true, run_wA]
+              rw [run_bind]
+              simp only [run_rA, oka, if_true, run_wA']
+      obtain ⟨m2, hr2, hn2, hu2, hb2, ht2, hstep⟩ := key
+      rw [hstep, ← hn2]
+      obtain ⟨m', hr, fr⟩ := ih m2 hr2 (fun e he => by
+        obtain ⟨a, b⟩ := hL e (List.mem_cons_of_mem _ he); exact ⟨a, by rw [hn2]; exact b⟩)
+      refine ⟨m', hr, fr.n.trans hn2, fr.rok, fun x => (fr.u x).trans (hu2 x), ?_, ?_, fun x => (fr.tags x).trans (ht2 x)⟩
+      · intro x hx
+        simp only [List.map_cons, List.mem_cons] at hx
+        by_cases hxL : x ∈ L.map (·.1)
+        · exact fr.inK x hxL
+        · rw [fr.other 2 x (fun hh => hxL hh.2), hb2]
+          have : x = d := hx.resolve_right hxL
+          rw [this, h.sized.β_setβ (by omega) hd, if_pos ⟨rfl, rfl⟩]
+      · intro i x hx
+        simp only [List.map_cons, List.mem_cons] at hx
+        rw [fr.other i x (fun hh => hx ⟨hh.1, Or.inr hh.2⟩), hb2, h.sized.β_setβ (by omega) hd,
+          if_neg (fun hh => hx ⟨hh.1.symm, Or.inl hh.2.symm⟩)]
+
+/-! ## `delete_darts`, for every iteration order of the marked set -/
+
+/-- **C16, clip — what `delete_darts` does to β and the removal flags**, for every iteration order
+    `order` of the set of marked faces (`HashSet`): the darts of the marked faces are unlinked (all three
+    images null) and flagged as removed; every other dart keeps its flag, its β0 and β1, and its β2 unless
+    it is tagged `kept`, in which case it becomes 2-free.  (Coordinates / vertex anchors are not described
+    here.) -/
+theorem C16_deleteDarts_spec {m0 m' : Map Val} (h0 : WF 3 m0) (hst : 9 < m0.a.size) (order : List Nat)
+    (kept : Val) (ha : Bool) (ho : ∀ f, f ∈ order → FaceId m0 f ∧ m0.unused f = false) (hnd : order.Nodup)
+    (hr : run (deleteDarts m0.n order kept ha) m0 = (.ok (), m')) :
+    m'.n = m0.n ∧ ROK m' ∧
+    (∀ x, InFaces m0 order x → m'.unused x = true ∧ ∀ i, i < 3 → m'.β i x = 0) ∧
+    (∀ x, ¬ InFaces m0 order x → m'.unused x = m0.unused x ∧ m'.β 0 x = m0.β 0 x ∧ m'.β 1 x = m0.β 1 x ∧
+      m'.β 2 x = if x ≠ 0 ∧ x < m0.n ∧ m0.att sBd x = some kept then 0 else m0.β 2 x) ∧
+    (∀ x, m'.att sBd x = m0.att sBd x) := by
+  have hrok : ROK m0 := ROK.of_wf h0 hst
+  unfold deleteDarts at hr
+  simp only [Prog.bind_eq] at hr
+  obtain ⟨saved, m1, h1, hr1⟩ := run_bind_ok hr
+  have e1 : m1 = m0 := (readOnly_savedBoundary _ _ _ _).run_ok h1
+  rw [e1] at hr1 h1
+  have hsaved := savedBoundary_darts _ _ _ _ _ _ _ h1
+  obtain ⟨_, m2, h2, hr2⟩ := run_bind_ok hr1
+  obtain ⟨m2', h2', d2⟩ := deleteFaces_eff h0 order [] m0 ((Del.refl hrok).congr (by
+      intro x; unfold InFaces; simp)) (fun f hf => by cases hf)
+    (fun f hf => ⟨(ho f hf).1, (ho f hf).2, by simp⟩) hnd
+  rw [h2'] at h2
+  have e2 : m2 = m2' := by injection h2 with _ e; exact e.symm
+  subst e2
+  simp only [List.nil_append] at d2
+  have hK : ∀ x, x ∈ saved.map (·.1) ↔ (x ≠ 0 ∧ x < m0.n ∧ m0.att sBd x = some kept) := by
+    intro x
+    rw [hsaved, List.mem_filter, mem_darts]
+    simp only [decide_eq_true_eq]
+    exact ⟨fun ⟨⟨a, b⟩, c⟩ => ⟨a, b, c⟩, fun ⟨a, b, c⟩ => ⟨⟨a, b⟩, c⟩⟩
+  have hL : ∀ e, e ∈ saved → e.1 ≠ 0 ∧ e.1 < m2.n := by
+    intro e he
+    have := (hK e.1).1 (List.mem_map.2 ⟨e, he, rfl⟩)
+    exact ⟨this.1, by rw [d2.n]; exact this.2.1⟩
+  obtain ⟨m3, h3, fr⟩ := restoreBoundary_eff saved m2 d2.rok hL
+  rw [d2.n, hr2] at h3
+  have e3 : m' = m3 := by injection h3 with _ e
+  subst e3
+  refine ⟨fr.n.trans d2.n, fr.rok, ?_, ?_, fun x => (fr.tags x).trans (d2.att sBd x (by decide))⟩
+  · intro x hx
+    obtain ⟨u, b⟩ := d2.inD x hx
+    refine ⟨(fr.u x).trans u, fun i hi => ?_⟩
+    by_cases hc : i = 2 ∧ x ∈ saved.map (·.1)
+    · rw [hc.1]; exact fr.inK x hc.2
+    · rw [fr.other i x hc]; exact b i hi
+  · intro x hx
+    obtain ⟨u, b⟩ := d2.outD x hx
+    refine ⟨(fr.u x).trans u, ?_, ?_, ?_⟩
+    · rw [fr.other 0 x (fun hh => absurd hh.1 (by decide))]; exact b 0
+    · rw [fr.other 1 x (fun hh => absurd hh.1 (by decide))]; exact b 1
+    · by_cases hk : x ∈ saved.map (·.1)
+      · rw [fr.inK x hk, if_pos ((hK x).1 hk)]
+      · rw [fr.other 2 x (fun hh => hk hh.2), if_neg (fun hh => hk ((hK x).2 hh))]; exact b 2
+
+/-- **C16, clip — the result does not depend on the iteration order of the `HashSet`**: two iteration
+    orders of the same set of marked faces give the same β functions and the same removal flags -/
+theorem C16_deleteDarts_order_independent {m0 m1 m2 : Map Val} (h0 : WF 3 m0) (hst : 9 < m0.a.size)
+    (o1 o2 : List Nat) (kept : Val) (ha : Bool)
+    (ho : ∀ f, f ∈ o1 → FaceId m0 f ∧ m0.unused f = false) (hn1 : o1.Nodup) (hn2 : o2.Nodup)
+    (hperm : ∀ f, f ∈ o1 ↔ f ∈ o2)
+    (hr1 : run (deleteDarts m0.n o1 kept ha) m0 = (.ok (), m1))
+    (hr2 : run (deleteDarts m0.n o2 kept ha) m0 = (.ok (), m2)) :
+    m1.n = m2.n ∧ (∀ i, i < 3 → ∀ x, m1.β i x = m2.β i x) ∧ ∀ x, m1.unused x = m2.unused x := by
+  obtain ⟨a1, _, b1, c1, _⟩ := C16_deleteDarts_spec h0 hst o1 kept ha ho hn1 hr1
+  obtain ⟨a2, _, b2, c2, _⟩ := C16_deleteDarts_spec h0 hst o2 kept ha
+    (fun f hf => ho f ((hperm f).2 hf)) hn2 hr2
+  have hD : ∀ x, InFaces m0 o1 x ↔ InFaces m0 o2 x := by
+    intro x; unfold InFaces
+    exact ⟨fun ⟨f, hf, hx⟩ => ⟨f, (hperm f).1 hf, hx⟩, fun ⟨f, hf, hx⟩ => ⟨f, (hperm f).2 hf, hx⟩⟩
+  refine ⟨a1.trans a2.symm, ?_, ?_⟩
+  · intro i hi x
+    by_cases hx : InFaces m0 o1 x
+    · rw [(b1 x hx).2 i hi, (b2 x ((hD x).1 hx)).2 i hi]
+    · obtain ⟨_, p0, p1, p2⟩ := c1 x hx
+      obtain ⟨_, q0, q1, q2⟩ := c2 x (fun hh => hx ((hD x).2 hh))
+      have : i = 0 ∨ i = 1 ∨ i = 2 := by omega
+      rcases this with rfl | rfl | rfl
+      · rw [p0, q0]
+      · rw [p1, q1]
+      · rw [p2, q2]
+  · intro x
+    by_cases hx : InFaces m0 o1 x
+    · rw [(b1 x hx).1, (b2 x ((hD x).1 hx)).1]
+    · rw [(c1 x hx).1, (c2 x (fun hh => hx ((hD x).2 hh))).1]
+
+/-! ## `mark_faces`: the marked set is the closure of the seed faces -/
+
+section
+variable (m : Map Val)
+
+/-- the `Boundary` tag of a dart -/
+abbrev tagOf (d : Nat) : Option Val := m.att sBd d
+
+/-- `matches!(…, Some(Boundary::None) | None)` -/
+def Untagged (v : Option Val) : Prop := v = some bdNone ∨ v = none
+
+instance (v : Option Val) : Decidable (Untagged v) := by unfold Untagged; exact inferInstance
+
+def FreeDart (d : Nat) : Prop := m.β 0 d = 0 ∧ m.β 1 d = 0 ∧ m.β 2 d = 0
+
+instance (d : Nat) : Decidable (FreeDart m d) := by unfold FreeDart; exact inferInstance
+
+/-- a face the traversal starts from: the face of a non-free dart tagged `mark` -/
+def SeedFace (mark : Val) (f : Nat) : Prop :=
+  ∃ d, d ≠ 0 ∧ d < m.n ∧ tagOf m d = some mark ∧ ¬ FreeDart m d ∧ f = cellId m .face d
+
+/-- `f'` is entered from `f` through a side whose opposite dart carries no tag -/
+def StepFace (f f' : Nat) : Prop :=
+  ∃ d, d ∈ orb m .face f ∧ Untagged (tagOf m (m.β 2 d)) ∧ f' = cellId m .face (m.β 2 d)
+
+/-- the faces reachable from a `mark`-tagged dart without crossing the boundary -/
+inductive Clos (mark : Val) : Nat → Prop where
+  | seed {f : Nat} : SeedFace m mark f → Clos mark f
+  | step {f f' : Nat} : Clos mark f → StepFace m f f' → f' ≠ 0 → Clos mark f'
+
+end
+
+theorem run_isFree2 {m : Map Val} (h : WF 3 m) {d : Nat} (hd : d < m.n) :
+    run (isFree2 d) m = (.ok (decide (FreeDart m d)), m) := by
+  unfold isFree2 FreeDart
+  simp only [Prog.bind_eq, Prog.pure_eq, run_rB, okb h (by omega : 0 < 3) hd, okb h (by omega : 1 < 3) hd,
+    okb h (by omega : 2 < 3) hd, if_true]
+  have a1 := okb h (by omega : 1 < 3) hd
+  have a2 := okb h (by omega : 2 < 3) hd
+  by_cases h0 : m.β 0 d = 0
+  · by_cases h1 : m.β 1 d = 0
+    · by_cases h2 : m.β 2 d = 0
+      · simp [h0, h1, h2, a1, a2]
+      · simp [h0, h1, h2, a1, a2]
+    · simp [h0, h1, a1, a2]
+  · simp [h0, a1, a2]
+
+/-- the pure content of the three read-only scans -/
+def seedList (m : Map Val) (mark : Val) (ds : List Nat) : List Nat :=
+  ds.filterMap (fun d => if tagOf m d = some mark ∧ ¬ FreeDart m d then some (cellId m .face d) else none)
+
+def nbrList (m : Map Val) (l : List Nat) : List Nat :=
+  l.filterMap (fun d => if Untagged (tagOf m (m.β 2 d)) then some (cellId m .face (m.β 2 d)) else none)
+
+theorem run_seedFaces {m : Map Val} (h : WF 3 m) (hst : 9 < m.a.size) (mark : Val) : ∀ ds,
+    (∀ d, d ∈ ds → d ≠ 0 ∧ d < m.n) →
+    run (seedFaces m.n mark ds) m = (.ok (seedList m mark ds), m) := by
+  have hr := ROK.of_wf h hst
+  intro ds
+  induction ds with
+  | nil => intro _; rfl
+  | cons d ds ih =>
+      intro hds
+      obtain ⟨hd0, hd⟩ := hds d List.mem_cons_self
+      have ih' := ih (fun x hx => hds x (List.mem_cons_of_mem _ hx))
+      unfold seedFaces seedList
+      simp only [Prog.bind_eq, run_rA, hr.okA (by decide : sBd ≤ 9) hd, if_true, List.filterMap_cons]
+      by_cases ht : m.att sBd d = some mark
+      · rw [if_pos ht, run_bind, run_isFree2 h hd]
+        simp only
+        by_cases hf : FreeDart m d
+        · simp only [hf, decide_true, if_true, tagOf, ht, not_true_eq_false, and_false, if_false]
+          exact ih'
+        · simp only [hf, decide_false, Bool.false_eq_true, if_false, tagOf, ht, not_false_eq_true, and_self,
+            if_true]
+          rw [run_bind, run_fid' h hd]
+          simp only
+          rw [run_bind, ih']
+          rfl
+      · rw [if_neg ht]
+        simp only [tagOf, ht, false_and, if_false]
+        exact ih'
+
+theorem run_anyTagged {m : Map Val} (hr : ROK m) (tag : Val) : ∀ l, (∀ d, d ∈ l → d < m.n) →
+    run (anyTagged tag l) m = (.ok (l.any (fun d => decide (tagOf m d = some tag))), m) := by
+  intro l
+  induction l with
+  | nil => intro _; rfl
+  | cons d ds ih =>
+      intro hl
+      have hd := hl d List.mem_cons_self
+      unfold anyTagged
+      simp only [Prog.bind_eq, run_rA, hr.okA (by decide : sBd ≤ 9) hd, if_true, List.any_cons]
+      by_cases ht : m.att sBd d = some tag
+      · simp [ht, tagOf]
+      · rw [if_neg ht, ih (fun x hx => hl x (List.mem_cons_of_mem _ hx))]
+        simp [ht, tagOf]
+
+theorem run_untaggedNeighbours {m : Map Val} (h : WF 3 m) (hst : 9 < m.a.size) : ∀ l, (∀ d, d ∈ l → d < m.n) →
+    run (untaggedNeighbours m.n l) m = (.ok (nbrList m l), m) := by
+  have hr := ROK.of_wf h hst
+  intro l
+  induction l with
+  | nil => intro _; rfl
+  | cons d ds ih =>
+      intro hl
+      have hd := hl d List.mem_cons_self
+      have hb : m.β 2 d < m.n := h.range 2 (by omega) d hd
+      have ih' := ih (fun x hx => hl x (List.mem_cons_of_mem _ hx))
+      unfold untaggedNeighbours nbrList
+      simp only [Prog.bind_eq, run_rB, okb h (by omega : 2 < 3) hd, if_true, run_rA,
+        hr.okA (by decide : sBd ≤ 9) hb, List.filterMap_cons]
+      by_cases hu : m.att sBd (m.β 2 d) = some bdNone ∨ m.att sBd (m.β 2 d) = none
+      · rw [if_pos hu, run_bind, run_fid' h hb]
+        simp only
+        rw [run_bind, ih']
+        have : Untagged (tagOf m (m.β 2 d)) := hu
+        simp only [this, if_true]
+        rfl
+      · rw [if_neg hu]
+        have : ¬ Untagged (tagOf m (m.β 2 d)) := hu
+        simp only [this, if_false]
+        exact ih'
+
+/-- one iteration of the `while let` loop -/
+theorem run_markLoop_cons {m : Map Val} (h : WF 3 m) (hst : 9 < m.a.size) (other : Val) (f face : Nat)
+    (q mk : List Nat) (hf0 : face ≠ 0) (hf : face < m.n) :
+    run (markLoop m.n other (f + 1) (face :: q) mk) m =
+      if mk.contains face = true then run (markLoop m.n other f q mk) m
+      else if (orb m .face face).any (fun d => decide (tagOf m d = some other)) = true then
+        (.err errBetweenBoundary, m)
+      else run (markLoop m.n other f (q ++ nbrList m (orb m .face face)) (mk ++ [face])) m := by
+  have hr := ROK.of_wf h hst
+  have hol := orb_lt h (pol := .face) trivial hf
+  conv => lhs; unfold markLoop
+  by_cases hc : mk.contains face = true
+  · rw [if_pos hc, if_pos hc]
+  · rw [if_neg hc, if_neg hc]
+    simp only [Prog.bind_eq]
+    rw [run_bind, run_orbit2' h (pol := .face) trivial hf]
+    simp only
+    rw [run_bind, run_anyTagged hr other _ hol]
+    simp only
+    by_cases hb : (orb m .face face).any (fun d => decide (tagOf m d = some other)) = true
+    · rw [if_pos hb, if_pos hb]; rfl
+    · rw [if_neg hb, if_neg hb, run_bind, run_orbit2' h (pol := .face) trivial hf]
+      simp only
+      rw [run_bind, run_untaggedNeighbours h hst _ hol]
+
+/-- the face of an in-use dart is an in-use face identifier -/
+theorem face_inuse {m : Map Val} (h : WF 3 m) {d : Nat} (hd0 : d ≠ 0) (hd : d < m.n) (hu : m.unused d = false) :
+    FaceId m (cellId m .face d) ∧ m.unused (cellId m .face d) = false := by
+  obtain ⟨a, b, c, e⟩ := cell_rep h (pol := .face) trivial hd0 hd hu
+  exact ⟨⟨a, b, e⟩, c⟩
+
+theorem not_free_inuse {m : Map Val} (h : WF 3 m) {d : Nat} (hd : d < m.n) (hf : ¬ FreeDart m d) :
+    m.unused d = false := by
+  cases hu : m.unused d with
+  | false => rfl
+  | true =>
+      exfalso; apply hf
+      exact ⟨h.unusedFree d hd hu 0 (by omega), h.unusedFree d hd hu 1 (by omega), h.unusedFree d hd hu 2 (by omega)⟩
+
+/-- invariant of the marking loop -/
+structure MInv (m : Map Val) (mark other : Val) (q mk : List Nat) : Prop where
+  mk0 : 0 ∈ mk
+  nodup : mk.Nodup
+  mkc : ∀ f, f ∈ mk → f ≠ 0 → Clos m mark f ∧ FaceId m f ∧ m.unused f = false ∧
+    ∀ d, d ∈ orb m .face f → tagOf m d ≠ some other
+  qc : ∀ f, f ∈ q → f = 0 ∨ (Clos m mark f ∧ FaceId m f ∧ m.unused f = false)
+  closed : ∀ f, f ∈ mk → f ≠ 0 → ∀ f', StepFace m f f' → f' ∈ mk ∨ f' ∈ q
+  seeds : ∀ f, SeedFace m mark f → f ∈ mk ∨ f ∈ q
+
+/-- an already marked face is dropped from the queue -/
+theorem MInv.skip {m : Map Val} {mark other : Val} {face : Nat} {q mk : List Nat}
+    (I : MInv m mark other (face :: q) mk) (hmem : face ∈ mk) : MInv m mark other q mk := by
+  refine ⟨I.mk0, I.nodup, I.mkc, fun f hf => I.qc f (List.mem_cons_of_mem _ hf), ?_, ?_⟩
+  · intro f hf hf0 f' hs
+    rcases I.closed f hf hf0 f' hs with hh | hh
+    · exact Or.inl hh
+    · rcases List.mem_cons.1 hh with e | e
+      · exact Or.inl (e ▸ hmem)
+      · exact Or.inr e
+  · intro f hs
+    rcases I.seeds f hs with hh | hh
+    · exact Or.inl hh
+    · rcases List.mem_cons.1 hh with e | e
+      · exact Or.inl (e ▸ hmem)
+      · exact Or.inr e
+
+/-- a new face without the other tag is marked, its untagged neighbours are queued -/
+theorem MInv.mark {m : Map Val} (h : WF 3 m) {mark other : Val} {face : Nat} {q mk : List Nat}
+    (I : MInv m mark other (face :: q) mk) (hnm : face ∉ mk)
+    (hno : ∀ d, d ∈ orb m .face face → tagOf m d ≠ some other) :
+    MInv m mark other (q ++ nbrList m (orb m .face face)) (mk ++ [face]) := by
+  have hf0 : face ≠ 0 := fun e => hnm (e ▸ I.mk0)
+  obtain ⟨hcl, hfid, hfu⟩ := (I.qc face List.mem_cons_self).resolve_left hf0
+  have hnb : ∀ f', f' ∈ nbrList m (orb m .face face) ↔ StepFace m face f' := by
+    intro f'
+    unfold nbrList StepFace
+    rw [List.mem_filterMap]
+    constructor
+    · rintro ⟨d, hd, e⟩
+      by_cases hu : Untagged (tagOf m (m.β 2 d))
+      · rw [if_pos hu] at e; injection e with e; exact ⟨d, hd, hu, e.symm⟩
+      · rw [if_neg hu] at e; cases e
+    · rintro ⟨d, hd, hu, e⟩
+      exact ⟨d, hd, by rw [if_pos hu, e]⟩
+  refine ⟨List.mem_append_left _ I.mk0, ?_, ?_, ?_, ?_, ?_⟩
+  · rw [List.nodup_append]
+    exact ⟨I.nodup, by simp, fun a ha b hb' e => hnm (by rw [List.mem_singleton.1 hb'] at e; exact e ▸ ha)⟩
+  · intro g hg hg0
+    rcases List.mem_append.1 hg with hg | hg
+    · exact I.mkc g hg hg0
+    · rw [List.mem_singleton.1 hg]; exact ⟨hcl, hfid, hfu, hno⟩
+  · intro g hg
+    rcases List.mem_append.1 hg with hg | hg
+    · exact I.qc g (List.mem_cons_of_mem _ hg)
+    · -- a neighbour entered through an untagged side
+      obtain ⟨d, hd, hu, e⟩ := (hnb g).1 hg
+      by_cases hb0 : m.β 2 d = 0
+      · left; rw [e, hb0, cellId_zero h (pol := .face) trivial]
+      · right
+        obtain ⟨d0, dlt, _⟩ := face_of_mem h hfid hd
+        have hblt : m.β 2 d < m.n := h.range 2 (by omega) d dlt
+        have hbu : m.unused (m.β 2 d) = false := by
+          cases hu' : m.unused (m.β 2 d) with
+          | false => rfl
+          | true => exact absurd (C01.C01_unused_is_nobodys_image h 2 (by omega) d dlt hu') hb0
+        obtain ⟨x1, x2⟩ := face_inuse h hb0 hblt hbu
+        have hg0 : g ≠ 0 := by rw [e]; exact x1.1
+        exact ⟨Clos.step hcl ⟨d, hd, hu, e⟩ hg0, e ▸ x1, e ▸ x2⟩
+  · intro g hg hg0 g' hs
+    rcases List.mem_append.1 hg with hg | hg
+    · rcases I.closed g hg hg0 g' hs with hh | hh
+      · exact Or.inl (List.mem_append_left _ hh)
+      · rcases List.mem_cons.1 hh with e | e
+        · exact Or.inl (List.mem_append_right _ (by rw [e]; simp))
+        · exact Or.inr (List.mem_append_left _ e)
+    · rw [List.mem_singleton.1 hg] at hs
+      exact Or.inr (List.mem_append_right _ ((hnb g').2 hs))
+  · intro g hs
+    rcases I.seeds g hs with hh | hh
+    · exact Or.inl (List.mem_append_left _ hh)
+    · rcases List.mem_cons.1 hh with e | e
+      · exact Or.inl (List.mem_append_right _ (by rw [e]; simp))
+      · exact Or.inr (List.mem_append_left _ e)
+
+/-- the loop, for every fuel: `Ok` ⇒ the marked list is the closure; `Err` ⇒ a closure face carries the
+    other tag -/
+theorem markLoop_spec {m : Map Val} (h : WF 3 m) (hst : 9 < m.a.size) (mark other : Val) :
+    ∀ (fuel : Nat) (q mk : List Nat), MInv m mark other q mk →
+    (∀ res m', run (markLoop m.n other fuel q mk) m = (.ok res, m') → m' = m ∧ MInv m mark other [] res) ∧
+    (∀ e m', run (markLoop m.n other fuel q mk) m = (.err e, m') →
+      ∃ f, Clos m mark f ∧ ∃ d, d ∈ orb m .face f ∧ tagOf m d = some other) := by
+  intro fuel
+  induction fuel with
+  | zero => intro q mk _; constructor <;> (intro _ _ hr; simp [markLoop, run] at hr)
+  | succ f ih =>
+      intro q mk I
+      cases q with
+      | nil =>
+          constructor
+          · intro res m' hr
+            simp only [markLoop, Prog.pure_eq, run_ret, Prod.mk.injEq, Out.ok.injEq] at hr
+            rw [← hr.1, ← hr.2]; exact ⟨rfl, I⟩
+          · intro e m' hr; simp [markLoop, run] at hr
+      | cons face q =>
+          by_cases hc : mk.contains face = true
+          · -- already marked: dropped from the queue
+            have hmem : face ∈ mk := by simpa using hc
+            have hstep : run (markLoop m.n other (f + 1) (face :: q) mk) m = run (markLoop m.n other f q mk) m := by
+              conv => lhs; unfold markLoop
+              rw [if_pos hc]
+            rw [hstep]
+            exact ih q mk (I.skip hmem)
+          · -- a new face
+            have hnm : face ∉ mk := fun hh => hc (by simpa using hh)
+            have hf0 : face ≠ 0 := fun e => hnm (e ▸ I.mk0)
+            obtain ⟨hcl, hfid, hfu⟩ := (I.qc face List.mem_cons_self).resolve_left hf0
+            rw [run_markLoop_cons h hst other f face q mk hf0 hfid.2.1, if_neg hc]
+            by_cases hb : (orb m .face face).any (fun d => decide (tagOf m d = some other)) = true
+            · rw [if_pos hb]
+              constructor
+              · intro res m' hr; cases hr
+              · intro e m' _
+                obtain ⟨d, hd, ht⟩ := List.any_eq_true.1 hb
+                exact ⟨face, hcl, d, hd, by simpa using ht⟩
+            · rw [if_neg hb]
+              apply ih
+              exact I.mark h hnm (fun d hd ht => hb (List.any_eq_true.2 ⟨d, hd, by simpa using ht⟩))
+
+/-! ### the loop terminates with the fuel it is given -/
+
+/-- darts whose face is not marked yet -/
+def unmarked (m : Map Val) (mk : List Nat) : List Nat :=
+  (List.range' 1 (m.n - 1)).filter (fun d => !mk.contains (cellId m .face d))
+
+theorem unmarked_drop {m : Map Val} (h : WF 3 m) {face : Nat} (hf : FaceId m face) {mk : List Nat} (hnm : face ∉ mk) :
+    (orb m .face face).length + (unmarked m (mk ++ [face])).length ≤ (unmarked m mk).length := by
+  have sp := C03_orbit2_spec h (pol := .face) trivial hf.1 hf.2.1
+  have hnd : (orb m .face face ++ unmarked m (mk ++ [face])).Nodup := by
+    rw [List.nodup_append]
+    refine ⟨sp.2.2.1, List.Pairwise.filter _ List.nodup_range', ?_⟩
+    intro a ha b hb e
+    rw [← e] at hb
+    unfold unmarked at hb
+    rw [List.mem_filter] at hb
+    have := (face_of_mem h hf ha).2.2
+    rw [this] at hb
+    simp at hb
+  have hsub : (orb m .face face ++ unmarked m (mk ++ [face])) ⊆ unmarked m mk := by
+    intro x hx
+    unfold unmarked
+    rw [List.mem_filter]
+    rcases List.mem_append.1 hx with hx | hx
+    · obtain ⟨x0, xlt, xid⟩ := face_of_mem h hf hx
+      refine ⟨mem_darts.2 ⟨x0, xlt⟩, ?_⟩
+      rw [xid]; simpa using hnm
+    · unfold unmarked at hx
+      rw [List.mem_filter] at hx
+      refine ⟨hx.1, ?_⟩
+      have := hx.2
+      simp only [Bool.not_eq_true', List.contains_eq_mem, List.mem_append, decide_eq_false_iff_not] at this ⊢
+      exact fun hh => this (Or.inl hh)
+  have := hnd.length_le_of_subset hsub
+  rwa [List.length_append] at this
+
+theorem nbrList_length (m : Map Val) (l : List Nat) : (nbrList m l).length ≤ l.length :=
+  List.length_filterMap_le _ _
+
+/-- with `q.length + #(darts of unmarked faces) + 1` units of fuel the loop ends: it answers `Ok` or the
+    orientation error, and leaves the map alone -/
+theorem markLoop_total {m : Map Val} (h : WF 3 m) (hst : 9 < m.a.size) (mark other : Val) :
+    ∀ (fuel : Nat) (q mk : List Nat), MInv m mark other q mk → q.length + (unmarked m mk).length + 1 ≤ fuel →
+    (∃ res, run (markLoop m.n other fuel q mk) m = (.ok res, m)) ∨
+      run (markLoop m.n other fuel q mk) m = (.err errBetweenBoundary, m) := by
+  intro fuel
+  induction fuel with
+  | zero => intro q mk _ hle; omega
+  | succ f ih =>
+      intro q mk I hle
+      cases q with
+      | nil => left; exact ⟨mk, by simp [markLoop, run]⟩
+      | cons face q =>
+          by_cases hc : mk.contains face = true
+          · have hmem : face ∈ mk := by simpa using hc
+            have hstep : run (markLoop m.n other (f + 1) (face :: q) mk) m = run (markLoop m.n other f q mk) m := by
+              conv => lhs; unfold markLoop
+              rw [if_pos hc]
+            rw [hstep]
+            exact ih q mk (I.skip hmem) (by simp only [List.length_cons] at hle; omega)
+          · have hnm : face ∉ mk := fun hh => hc (by simpa using hh)
+            have hf0 : face ≠ 0 := fun e => hnm (e ▸ I.mk0)
+            obtain ⟨hcl, hfid, hfu⟩ := (I.qc face List.mem_cons_self).resolve_left hf0
+            rw [run_markLoop_cons h hst other f face q mk hf0 hfid.2.1, if_neg hc]
+            by_cases hb : (orb m .face face).any (fun d => decide (tagOf m d = some other)) = true
+            · rw [if_pos hb]; right; rfl
+            · rw [if_neg hb]
+              apply ih _ _ (I.mark h hnm (fun d hd ht => hb (List.any_eq_true.2 ⟨d, hd, by simpa using ht⟩)))
+              have h1 := unmarked_drop h hfid hnm
+              have h2 := nbrList_length m (orb m .face face)
+              simp only [List.length_cons, List.length_append] at hle ⊢
+              omega
+
+theorem clos_faceId {m : Map Val} (h : WF 3 m) {mark : Val} {f : Nat} (hc : Clos m mark f) :
+    FaceId m f ∧ m.unused f = false := by
+  induction hc with
+  | seed hs =>
+      obtain ⟨d, d0, dlt, _, hnf, e⟩ := hs
+      rw [e]; exact face_inuse h d0 dlt (not_free_inuse h dlt hnf)
+  | step _ hs hf0 ih =>
+      obtain ⟨d, hd, _, e⟩ := hs
+      obtain ⟨d0, dlt, _⟩ := face_of_mem h ih.1 hd
+      have hb0 : m.β 2 d ≠ 0 := by
+        intro e0; apply hf0; rw [e, e0, cellId_zero h (pol := .face) trivial]
+      have hblt : m.β 2 d < m.n := h.range 2 (by omega) d dlt
+      have hbu : m.unused (m.β 2 d) = false := by
+        cases hu' : m.unused (m.β 2 d) with
+        | false => rfl
+        | true => exact absurd (C01.C01_unused_is_nobodys_image h 2 (by omega) d dlt hu') hb0
+      rw [e]; exact face_inuse h hb0 hblt hbu
+
+theorem MInv.init {m : Map Val} (h : WF 3 m) (mark other : Val) :
+    MInv m mark other (seedList m mark (List.range' 1 (m.n - 1))) [0] := by
+  refine ⟨by simp, by simp, ?_, ?_, ?_, ?_⟩
+  · intro f hf hf0; exact absurd (List.mem_singleton.1 hf) hf0
+  · intro f hf
+    right
+    unfold seedList at hf
+    obtain ⟨d, hd, e⟩ := List.mem_filterMap.1 hf
+    obtain ⟨d0, dlt⟩ := mem_darts.1 hd
+    by_cases hc : tagOf m d = some mark ∧ ¬ FreeDart m d
+    · rw [if_pos hc] at e; injection e with e
+      obtain ⟨x1, x2⟩ := face_inuse h d0 dlt (not_free_inuse h dlt hc.2)
+      exact ⟨Clos.seed ⟨d, d0, dlt, hc.1, hc.2, e.symm⟩, e ▸ x1, e ▸ x2⟩
+    · rw [if_neg hc] at e; cases e
+  · intro f hf hf0; exact absurd (List.mem_singleton.1 hf) hf0
+  · intro f hs
+    right
+    obtain ⟨d, d0, dlt, ht, hnf, e⟩ := hs
+    unfold seedList
+    exact List.mem_filterMap.2 ⟨d, mem_darts.2 ⟨d0, dlt⟩, by rw [if_pos ⟨ht, hnf⟩, e]⟩
+
+/-- **C16, clip — `mark_faces` returns the closure**: when it answers `Ok`, the map is untouched and the
+    returned faces are, each once, exactly the faces reachable from a non-free dart tagged `mark` by
+    crossing only sides whose opposite dart carries no tag; none of them has a dart tagged `other` -/
+theorem C16_markFaces_spec {m m' : Map Val} (h : WF 3 m) (hst : 9 < m.a.size) (mark other : Val) {fs : List Nat}
+    (hr : run (markFaces m.n mark other) m = (.ok fs, m')) :
+    m' = m ∧ fs.Nodup ∧ (∀ f, f ∈ fs ↔ Clos m mark f) ∧
+    ∀ f, f ∈ fs → ∀ d, d ∈ orb m .face f → tagOf m d ≠ some other := by
+  unfold markFaces at hr
+  simp only [Prog.bind_eq] at hr
+  rw [run_bind, run_seedFaces h hst mark _ (fun d hd => mem_darts.1 hd)] at hr
+  simp only at hr
+  obtain ⟨res, m1, h1, hr1⟩ := run_bind_ok hr
+  have I0 := MInv.init h mark other
+  obtain ⟨em, I⟩ := (markLoop_spec h hst mark other _ _ _ I0).1 res m1 h1
+  simp only [Prog.pure_eq, run_ret, Prod.mk.injEq, Out.ok.injEq] at hr1
+  obtain ⟨efs, e2⟩ := hr1
+  have hin : ∀ f, Clos m mark f → f ∈ res ∧ f ≠ 0 := by
+    intro f hc
+    induction hc with
+    | seed hs =>
+        have hf0 : _ ≠ 0 := (clos_faceId h (Clos.seed hs)).1.1
+        rcases I.seeds _ hs with hh | hh
+        · exact ⟨hh, hf0⟩
+        · cases hh
+    | step _ hs hf0 ih =>
+        rcases I.closed _ ih.1 ih.2 _ hs with hh | hh
+        · exact ⟨hh, hf0⟩
+        · cases hh
+  refine ⟨by rw [← e2, em], ?_, ?_, ?_⟩
+  · rw [← efs]; exact I.nodup.filter _
+  · intro f
+    rw [← efs, List.mem_filter]
+    simp only [ne_eq, decide_eq_true_eq]
+    exact ⟨fun ⟨a, b⟩ => (I.mkc f a b).1, fun hc => hin f hc⟩
+  · intro f hf
+    rw [← efs, List.mem_filter] at hf
+    simp only [ne_eq, decide_eq_true_eq] at hf
+    exact (I.mkc f hf.1 hf.2).2.2.2
+
+/-- **C16, clip — the error**: `mark_faces` answers `InconsistentOrientation` only if a face of the
+    closure has a dart tagged `other` (and `Ok` only if none has: `C16_markFaces_spec`) -/
+theorem C16_markFaces_err {m m' : Map Val} (h : WF 3 m) (hst : 9 < m.a.size) (mark other : Val) {e : Err}
+    (hr : run (markFaces m.n mark other) m = (.err e, m')) :
+    ∃ f, Clos m mark f ∧ ∃ d, d ∈ orb m .face f ∧ tagOf m d = some other := by
+  unfold markFaces at hr
+  simp only [Prog.bind_eq] at hr
+  rw [run_bind, run_seedFaces h hst mark _ (fun d hd => mem_darts.1 hd)] at hr
+  simp only at hr
+  have I0 := MInv.init h mark other
+  rw [run_bind] at hr
+  match hm : run (markLoop m.n other (2 * m.n + 2) (seedList m mark (List.range' 1 (m.n - 1))) [0]) m with
+  | (.ok res, m1) => rw [hm] at hr; simp [run] at hr
+  | (.err e1, m1) => exact (markLoop_spec h hst mark other _ _ _ I0).2 e1 m1 hm
+  | (.retry, m1) => rw [hm] at hr; cases hr
+  | (.panic, m1) => rw [hm] at hr; cases hr
+
+/-- **C16, clip — `mark_faces` terminates**: on every well-formed map the marking loop ends within the
+    `2·n_darts + 2` iterations the model allows (so the model never answers `retry`), never panics, leaves the
+    map alone, and answers `Ok` or `InconsistentOrientation` -/
+theorem C16_markFaces_total {m : Map Val} (h : WF 3 m) (hst : 9 < m.a.size) (mark other : Val) :
+    (∃ fs, run (markFaces m.n mark other) m = (.ok fs, m)) ∨
+      run (markFaces m.n mark other) m = (.err errBetweenBoundary, m) := by
+  unfold markFaces
+  simp only [Prog.bind_eq]
+  rw [run_bind, run_seedFaces h hst mark _ (fun d hd => mem_darts.1 hd)]
+  simp only
+  have hle : (seedList m mark (List.range' 1 (m.n - 1))).length + (unmarked m [0]).length + 1 ≤ 2 * m.n + 2 := by
+    have h1 : (seedList m mark (List.range' 1 (m.n - 1))).length ≤ (List.range' 1 (m.n - 1)).length :=
+      List.length_filterMap_le _ _
+    have h2 : (unmarked m [0]).length ≤ (List.range' 1 (m.n - 1)).length := List.length_filter_le _ _
+    rw [List.length_range'] at h1 h2
+    omega
+  rcases markLoop_total h hst mark other _ _ _ (MInv.init h mark other) hle with ⟨res, hr⟩ | hr
+  · left; exact ⟨res.filter (· ≠ 0), by rw [run_bind, hr]; rfl⟩
+  · right; rw [run_bind, hr]
+
+/-- **C16, clip — the error, both directions**: `mark_faces` answers `InconsistentOrientation` exactly when a
+    face of the closure has a dart tagged `other` -/
+theorem C16_markFaces_err_iff {m : Map Val} (h : WF 3 m) (hst : 9 < m.a.size) (mark other : Val) :
+    run (markFaces m.n mark other) m = (.err errBetweenBoundary, m) ↔
+      ∃ f, Clos m mark f ∧ ∃ d, d ∈ orb m .face f ∧ tagOf m d = some other := by
+  constructor
+  · exact C16_markFaces_err h hst mark other
+  · rintro ⟨f, hc, d, hd, ht⟩
+    rcases C16_markFaces_total h hst mark other with ⟨fs, hr⟩ | hr
+    · have sp := C16_markFaces_spec h hst mark other hr
+      exact absurd ht (sp.2.2.2 f ((sp.2.2.1 f).2 hc) d hd)
+    · exact hr
+
+/-- the darts of the faces the clip removes -/
+def InClos (m : Map Val) (mark : Val) (x : Nat) : Prop := ∃ f, Clos m mark f ∧ x ∈ orb m .face f
+
+/-- **C16, clip — `clip_left` / `clip_right` remove exactly the faces reachable from a `mark`-tagged dart
+    without crossing the boundary**, whatever the iteration order of the `HashSet` (`perm`): when the
+    call answers `Ok` on a well-formed 2-map,
+    * the darts of those faces are unlinked (β0 = β1 = β2 = 0) and flagged as removed;
+    * every other dart keeps its flag, β0 and β1, and its β2 unless it is tagged `other`, in which case it
+      is 2-free afterwards (the remaining boundary darts are 2-free);
+    * no removed face had a dart tagged `other`; the tags are untouched. -/
+theorem C16_clip_spec {m m' : Map Val} (h : WF 3 m) (hst : 9 < m.a.size) (mark other : Val) (ha : Bool)
+    (perm : List Nat → List Nat)
+    (hperm : ∀ l, l.Nodup → (perm l).Nodup ∧ ∀ f, f ∈ perm l ↔ f ∈ l)
+    (hr : run (clipWith m.n mark other ha perm) m = (.ok (), m')) :
+    m'.n = m.n ∧ ROK m' ∧
+    (∀ x, InClos m mark x → m'.unused x = true ∧ ∀ i, i < 3 → m'.β i x = 0) ∧
+    (∀ x, ¬ InClos m mark x → m'.unused x = m.unused x ∧ m'.β 0 x = m.β 0 x ∧ m'.β 1 x = m.β 1 x ∧
+      m'.β 2 x = if x ≠ 0 ∧ x < m.n ∧ tagOf m x = some other then 0 else m.β 2 x) ∧
+    (∀ x, InClos m mark x → tagOf m x ≠ some other) ∧
+    (∀ x, tagOf m' x = tagOf m x) := by
+  unfold clipWith at hr
+  simp only [Prog.bind_eq] at hr
+  obtain ⟨fs, m1, h1, hr1⟩ := run_bind_ok hr
+  obtain ⟨e1, hnd, hmem, hno⟩ := C16_markFaces_spec h hst mark other h1
+  rw [e1] at hr1
+  obtain ⟨pn, pm⟩ := hperm fs hnd
+  have hD : ∀ x, InFaces m (perm fs) x ↔ InClos m mark x := by
+    intro x; unfold InFaces InClos
+    exact ⟨fun ⟨f, hf, hx⟩ => ⟨f, (hmem f).1 ((pm f).1 hf), hx⟩,
+      fun ⟨f, hf, hx⟩ => ⟨f, (pm f).2 ((hmem f).2 hf), hx⟩⟩
+  obtain ⟨a, rk, b, c, d⟩ := C16_deleteDarts_spec h hst (perm fs) other ha
+    (fun f hf => clos_faceId h ((hmem f).1 ((pm f).1 hf))) pn hr1
+  refine ⟨a, rk, fun x hx => b x ((hD x).2 hx), fun x hx => c x (fun hh => hx ((hD x).1 hh)), ?_, d⟩
+  rintro x ⟨f, hf, hx⟩
+  exact hno f ((hmem f).2 hf) x hx
+
+/-- a dart belongs to a removed face iff its face is in the closure -/
+theorem inClos_iff {m : Map Val} (h : WF 3 m) (mark : Val) {x : Nat} (hx0 : x ≠ 0) (hx : x < m.n) :
+    InClos m mark x ↔ Clos m mark (cellId m .face x) := by
+  constructor
+  · rintro ⟨f, hc, hm⟩
+    rw [(face_of_mem h (clos_faceId h hc).1 hm).2.2]; exact hc
+  · intro hc
+    exact ⟨_, hc, (mem_own_face h hx0 hx).2⟩
+
+theorem face_b1 {m : Map Val} (h : WF 3 m) {d : Nat} (hd0 : d ≠ 0) (hd : d < m.n) (hb : m.β 1 d ≠ 0) :
+    cellId m .face (m.β 1 d) = cellId m .face d := by
+  have hlt := h.range 1 (by omega) d hd
+  exact ((C03_same_id_iff_same_cell h (pol := .face) trivial hd0 hd hb hlt).1.2
+    (Reach.single (by simp [g2]))).symm
+
+theorem face_b0 {m : Map Val} (h : WF 3 m) {d : Nat} (hd0 : d ≠ 0) (hd : d < m.n) (hb : m.β 0 d ≠ 0) :
+    cellId m .face (m.β 0 d) = cellId m .face d := by
+  have hlt := h.range 0 (by omega) d hd
+  exact ((C03_same_id_iff_same_cell h (pol := .face) trivial hd0 hd hb hlt).1.2
+    (Reach.single (by simp [g2]))).symm
+
+/-- **C16, clip — the clipped map is a well-formed 2-map whose boundary darts are 2-free**: if the tags
+    are `None` / `mark` / `other` only and every 2-linked dart tagged `other` faces a dart tagged `mark`
+    (as `mark_boundary` writes them: `Left` on a dart, `Right` on its β2), then after `Ok` the result is
+    well-formed, and every remaining dart tagged `other` is 2-free -/
+theorem C16_clip_WF {m m' : Map Val} (h : WF 3 m) (hst : 9 < m.a.size) (mark other : Val) (ha : Bool)
+    (perm : List Nat → List Nat)
+    (hperm : ∀ l, l.Nodup → (perm l).Nodup ∧ ∀ f, f ∈ perm l ↔ f ∈ l)
+    (htags : ∀ x, x ≠ 0 → x < m.n → tagOf m x = none ∨ tagOf m x = some bdNone ∨ tagOf m x = some mark ∨
+      tagOf m x = some other)
+    (hpair : ∀ e, e ≠ 0 → e < m.n → tagOf m e = some other → m.β 2 e ≠ 0 → tagOf m (m.β 2 e) = some mark)
+    (hr : run (clipWith m.n mark other ha perm) m = (.ok (), m')) :
+    WF 3 m' ∧
+    (∀ x, x ≠ 0 → x < m.n → m'.unused x = false → tagOf m' x = some other → m'.β 2 x = 0) := by
+  obtain ⟨hn, rk, hin, hout, hno, htg⟩ := C16_clip_spec h hst mark other ha perm hperm hr
+  have nz : ∀ i, i < 3 → ∀ d, m.β i d ≠ 0 → d ≠ 0 := by
+    intro i hi d hb e; rw [e, h.null i hi] at hb; exact hb rfl
+  -- a 2-linked dart tagged `mark` is a seed
+  have seedIn : ∀ d, d ≠ 0 → d < m.n → tagOf m d = some mark → m.β 2 d ≠ 0 → InClos m mark d := by
+    intro d d0 dlt ht hb
+    exact (inClos_iff h mark d0 dlt).2 (Clos.seed ⟨d, d0, dlt, ht, fun hf => hb hf.2.2, rfl⟩)
+  have b2form : ∀ x, ¬ InClos m mark x → m'.β 2 x = if x ≠ 0 ∧ x < m.n ∧ tagOf m x = some other then 0 else m.β 2 x :=
+    fun x hx => (hout x hx).2.2.2
+  refine ⟨⟨rk.sized, ?_⟩, ?_⟩
+  · refine ⟨rk.null, rk.range, ?_, ?_, ?_, ?_⟩
+    · -- β0 (β1 d) = d
+      intro d hd hb
+      rw [hn] at hd
+      by_cases hc : InClos m mark d
+      · exact absurd ((hin d hc).2 1 (by omega)) hb
+      · obtain ⟨_, _, e1, _⟩ := hout d hc
+        rw [e1] at hb ⊢
+        have d0 := nz 1 (by omega) d hb
+        have hlt := h.range 1 (by omega) d hd
+        have hc' : ¬ InClos m mark (m.β 1 d) := by
+          intro hh
+          apply hc
+          rw [inClos_iff h mark hb hlt, face_b1 h d0 hd hb] at hh
+          exact (inClos_iff h mark d0 hd).2 hh
+        rw [(hout _ hc').2.1]
+        exact h.inv01 d hd hb
+    · intro d hd hb
+      rw [hn] at hd
+      by_cases hc : InClos m mark d
+      · exact absurd ((hin d hc).2 0 (by omega)) hb
+      · obtain ⟨_, e0, _, _⟩ := hout d hc
+        rw [e0] at hb ⊢
+        have d0 := nz 0 (by omega) d hb
+        have hlt := h.range 0 (by omega) d hd
+        have hc' : ¬ InClos m mark (m.β 0 d) := by
+          intro hh
+          apply hc
+          rw [inClos_iff h mark hb hlt, face_b0 h d0 hd hb] at hh
+          exact (inClos_iff h mark d0 hd).2 hh
+        rw [(hout _ hc').2.2.1]
+        exact h.inv10 d hd hb
+    · -- β2 is an involution without fixed point
+      intro i hi h2 d hd hb
+      have hi2 : i = 2 := by omega
+      subst hi2
+      rw [hn] at hd
+      by_cases hc : InClos m mark d
+      · exact absurd ((hin d hc).2 2 (by omega)) hb
+      · rw [b2form d hc] at hb ⊢
+        by_cases hk : d ≠ 0 ∧ d < m.n ∧ tagOf m d = some other
+        · rw [if_pos hk] at hb; exact absurd rfl hb
+        · rw [if_neg hk] at hb ⊢
+          have d0 := nz 2 (by omega) d hb
+          have hnot : tagOf m d ≠ some other := fun e => hk ⟨d0, hd, e⟩
+          obtain ⟨inv, ne⟩ := h.invol 2 (by omega) (by omega) d hd hb
+          have elt := h.range 2 (by omega) d hd
+          -- the partner is not removed
+          have hce : ¬ InClos m mark (m.β 2 d) := by
+            intro hh
+            apply hc
+            rcases htags d d0 hd with t | t | t | t
+            · -- untagged: the closure steps through
+              have hcl := (inClos_iff h mark hb elt).1 hh
+              have : StepFace m (cellId m .face (m.β 2 d)) (cellId m .face d) :=
+                ⟨m.β 2 d, (mem_own_face h hb elt).2, by rw [inv]; exact Or.inr t, by rw [inv]⟩
+              exact (inClos_iff h mark d0 hd).2 (Clos.step hcl this (mem_own_face h d0 hd).1.1)
+            · have hcl := (inClos_iff h mark hb elt).1 hh
+              have : StepFace m (cellId m .face (m.β 2 d)) (cellId m .face d) :=
+                ⟨m.β 2 d, (mem_own_face h hb elt).2, by rw [inv]; exact Or.inl t, by rw [inv]⟩
+              exact (inClos_iff h mark d0 hd).2 (Clos.step hcl this (mem_own_face h d0 hd).1.1)
+            · exact seedIn d d0 hd t hb
+            · exact absurd t hnot
+          rw [b2form _ hce]
+          have hke : ¬ (m.β 2 d ≠ 0 ∧ m.β 2 d < m.n ∧ tagOf m (m.β 2 d) = some other) := by
+            rintro ⟨_, _, te⟩
+            have := hpair (m.β 2 d) hb elt te (by rw [inv]; exact d0)
+            rw [inv] at this
+            exact hc (seedIn d d0 hd this hb)
+          rw [if_neg hke]
+          exact ⟨inv, ne⟩
+    · -- removed darts are free
+      intro d hd hu i hi
+      rw [hn] at hd
+      by_cases hc : InClos m mark d
+      · exact (hin d hc).2 i hi
+      · obtain ⟨eu, e0, e1, e2⟩ := hout d hc
+        rw [eu] at hu
+        have old := h.unusedFree d hd hu
+        have : i = 0 ∨ i = 1 ∨ i = 2 := by omega
+        rcases this with rfl | rfl | rfl
+        · rw [e0]; exact old 0 (by omega)
+        · rw [e1]; exact old 1 (by omega)
+        · rw [e2]; split
+          · rfl
+          · exact old 2 (by omega)
+  · intro x x0 hx hu ht
+    rw [htg] at ht
+    have hc : ¬ InClos m mark x := fun hh => by rw [(hin x hh).1] at hu; cases hu
+    rw [b2form x hc, if_pos ⟨x0, hx, ht⟩]
+
+/-- **C16, clip — the result does not depend on the `HashSet` order**: two iteration orders of the marked
+    set give the same β functions and removal flags -/
+theorem C16_clip_order_independent {m m1 m2 : Map Val} (h : WF 3 m) (hst : 9 < m.a.size) (mark other : Val)
+    (ha : Bool) (p1 p2 : List Nat → List Nat)
+    (hp1 : ∀ l, l.Nodup → (p1 l).Nodup ∧ ∀ f, f ∈ p1 l ↔ f ∈ l)
+    (hp2 : ∀ l, l.Nodup → (p2 l).Nodup ∧ ∀ f, f ∈ p2 l ↔ f ∈ l)
+    (hr1 : run (clipWith m.n mark other ha p1) m = (.ok (), m1))
+    (hr2 : run (clipWith m.n mark other ha p2) m = (.ok (), m2)) :
+    m1.n = m2.n ∧ (∀ i, i < 3 → ∀ x, m1.β i x = m2.β i x) ∧ ∀ x, m1.unused x = m2.unused x := by
+  obtain ⟨a1, _, b1, c1, _, _⟩ := C16_clip_spec h hst mark other ha p1 hp1 hr1
+  obtain ⟨a2, _, b2, c2, _, _⟩ := C16_clip_spec h hst mark other ha p2 hp2 hr2
+  refine ⟨a1.trans a2.symm, ?_, ?_⟩
+  · intro i hi x
+    by_cases hx : InClos m mark x
+    · rw [(b1 x hx).2 i hi, (b2 x hx).2 i hi]
+    · obtain ⟨_, p0, p1', p2'⟩ := c1 x hx
+      obtain ⟨_, q0, q1, q2⟩ := c2 x hx
+      have : i = 0 ∨ i = 1 ∨ i = 2 := by omega
+      rcases this with rfl | rfl | rfl
+      · rw [p0, q0]
+      · rw [p1', q1]
+      · rw [p2', q2]
+  · intro x
+    by_cases hx : InClos m mark x
+    · rw [(b1 x hx).1, (b2 x hx).1]
+    · rw [(c1 x hx).1, (c2 x hx).1]
+
+theorem id_perm (l : List Nat) (h : l.Nodup) : (id l).Nodup ∧ ∀ f, f ∈ id l ↔ f ∈ l := ⟨h, fun _ => Iff.rfl⟩
+
+/-- `clip_left`: `mark = Left`, `other = Right` -/
+theorem C16_clipLeft_spec {m m' : Map Val} (h : WF 3 m) (hst : 9 < m.a.size) (ha : Bool)
+    (hr : run (clipLeft m.n ha) m = (.ok (), m')) :
+    m'.n = m.n ∧ ROK m' ∧
+    (∀ x, InClos m bdLeft x → m'.unused x = true ∧ ∀ i, i < 3 → m'.β i x = 0) ∧
+    (∀ x, ¬ InClos m bdLeft x → m'.unused x = m.unused x ∧ m'.β 0 x = m.β 0 x ∧ m'.β 1 x = m.β 1 x ∧
+      m'.β 2 x = if x ≠ 0 ∧ x < m.n ∧ tagOf m x = some bdRight then 0 else m.β 2 x) ∧
+    (∀ x, InClos m bdLeft x → tagOf m x ≠ some bdRight) ∧ (∀ x, tagOf m' x = tagOf m x) :=
+  C16_clip_spec h hst bdLeft bdRight ha id id_perm hr
+
+/-- `clip_right`: `mark = Right`, `other = Left` -/
+theorem C16_clipRight_spec {m m' : Map Val} (h : WF 3 m) (hst : 9 < m.a.size) (ha : Bool)
+    (hr : run (clipRight m.n ha) m = (.ok (), m')) :
+    m'.n = m.n ∧ ROK m' ∧
+    (∀ x, InClos m bdRight x → m'.unused x = true ∧ ∀ i, i < 3 → m'.β i x = 0) ∧
+    (∀ x, ¬ InClos m bdRight x → m'.unused x = m.unused x ∧ m'.β 0 x = m.β 0 x ∧ m'.β 1 x = m.β 1 x ∧
+      m'.β 2 x = if x ≠ 0 ∧ x < m.n ∧ tagOf m x = some bdLeft then 0 else m.β 2 x) ∧
+    (∀ x, InClos m bdRight x → tagOf m x ≠ some bdLeft) ∧ (∀ x, tagOf m' x = tagOf m x) :=
+  C16_clip_spec h hst bdRight bdLeft ha id id_perm hr
+
+/-! ## non-vacuity -/
+
+/-- three unit squares in a row (darts 1-4, 5-8, 9-12); the side between the first two cells is the
+    boundary: dart 2 tagged `Left`, its β2 (dart 8) tagged `Right`; the vertices 2, 3, 6 have coordinates -/
+def exRow : Map Val :=
+  (((((({ (Map.empty 3 10 13 : Map Val) with
+    b := #[#[0, 4, 1, 2, 3, 8, 5, 6, 7, 12, 9, 10, 11], #[0, 2, 3, 4, 1, 6, 7, 8, 5, 10, 11, 12, 9],
+           #[0, 0, 8, 0, 0, 0, 12, 0, 2, 0, 0, 0, 6]] }).setA sBd 2 (some bdLeft)).setA sBd 8 (some bdRight)).setA 0 3
+      (some (.pt 1 1 0))).setA 0 2 (some (.pt 1 0 0))).setA 0 6 (some (.pt 2 0 0)))
+
+theorem exRow_wf : WF 3 exRow := by decide
+example : 9 < exRow.a.size := by decide
+-- `clip_left` removes the first cell only; the second and third stay, dart 8 becomes 2-free
+example : (run (clipLeft exRow.n false) exRow).1 = .ok () := by decide +kernel
+example : ((List.range 13).map fun d => ((run (clipLeft exRow.n false) exRow).2).unused d) =
+    [false, true, true, true, true, false, false, false, false, false, false, false, false] := by decide +kernel
+example : ((run (clipLeft exRow.n false) exRow).2).β 2 8 = 0 ∧ ((run (clipLeft exRow.n false) exRow).2).β 2 6 = 12 := by
+  decide +kernel
+example : WF 3 (run (clipLeft exRow.n false) exRow).2 := by decide +kernel
+-- `clip_right` removes the second and the third cell (the side 6|12 is untagged: the closure steps through)
+example : ((List.range 13).map fun d => ((run (clipRight exRow.n false) exRow).2).unused d) =
+    [false, false, false, false, false, true, true, true, true, true, true, true, true] := by decide +kernel
+-- with the tags the wrong way round on the far side the closure meets the other tag: error
+example : (run (clipLeft exRow.n false) ((exRow.setA sBd 6 (some bdRight)).setA sBd 12 (some bdLeft))).1
+    = .ok () := by decide +kernel
+example : (run (clipLeft exRow.n false) (exRow.setA sBd 3 (some bdRight))).1 = .err errBetweenBoundary := by
+  decide +kernel
+
+-- the hypotheses of the theorems are satisfiable together: `exRow` has them all
+example : ∀ x, x ≠ 0 → x < exRow.n → tagOf exRow x = none ∨ tagOf exRow x = some bdNone ∨
+    tagOf exRow x = some bdLeft ∨ tagOf exRow x = some bdRight := by
+  have : ∀ x, x < 13 → (tagOf exRow x = none ∨ tagOf exRow x = some bdNone ∨
+    tagOf exRow x = some bdLeft ∨ tagOf exRow x = some bdRight) := by decide +kernel
+  exact fun x _ hx => this x hx
+example : ∀ e, e ≠ 0 → e < exRow.n → tagOf exRow e = some bdRight → exRow.β 2 e ≠ 0 →
+    tagOf exRow (exRow.β 2 e) = some bdLeft := by
+  have : ∀ e, e < 13 → (tagOf exRow e = some bdRight → exRow.β 2 e ≠ 0 →
+    tagOf exRow (exRow.β 2 e) = some bdLeft) := by decide +kernel
+  exact fun e _ he => this e he
+example : ∃ m', run (clipWith exRow.n bdLeft bdRight false id) exRow = (.ok (), m') :=
+  ⟨(run (clipWith exRow.n bdLeft bdRight false id) exRow).2,
+   Prod.ext (by show (run (clipLeft exRow.n false) exRow).1 = .ok (); decide +kernel) rfl⟩
+example : ∃ fs, run (markFaces exRow.n bdLeft bdRight) exRow = (.ok fs, exRow) := by
+  rcases C16_markFaces_total exRow_wf (by decide) bdLeft bdRight with hh | hh
+  · exact hh
+  · have : (run (markFaces exRow.n bdLeft bdRight) exRow).1 ≠ .err errBetweenBoundary := by decide +kernel
+    exact absurd (congrArg Prod.fst hh) this
+example : (run (markFaces exRow.n bdLeft bdRight) (exRow.setA sBd 3 (some bdRight))).1 =
+    .err errBetweenBoundary := by decide +kernel
 
 end HC.C16
